@@ -3,9 +3,10 @@
 
    Groups
    - stats:        column mean / std / scale_mut of src/linalg/stats.rs, bit for bit;
-   - chol:         cholesky_solve_mut on a symmetric system, bit for bit (incl. the Err decision);
-   - ridge_chol:   RidgeRegression::fit with the Cholesky solver END TO END (centring, one-pass std,
-                   scaling, X^T X + alpha I, X^T y, this property's transliteration of Cholesky,
+   - chol:         cholesky_solve_mut (C01's Cholesky model behind the entry point's shape tests) on a
+                   symmetric system, bit for bit (incl. the Err decision);
+   - ridge_chol:   RidgeRegression::fit with the Cholesky solver END TO END (C03's mean / one-pass std /
+                   scale, transpose, matmul, alpha on the diagonal, C01's Cholesky and its solve,
                    back-transformation of coefficients and intercept), bit for bit, incl. Err cases;
    - ridge_svd / ols_qr / ols_svd: the pre- and post-processing around the solver, bit for bit: the
                    model is run with a solver that answers with the implementation's solver output
@@ -24,61 +25,83 @@ Definition F := FOps.
 Definition eps64 : float := 0x1p-52%float.      (* f64::EPSILON *)
 Definition eps32 : float := 0x1p-23%float.      (* f32::EPSILON *)
 
+(* DenseMatrix::from_2d_vec of the harness' row lists (never empty there) *)
+Definition mk (rows : list (list float)) : dm float :=
+  match D.from_2d_vec F rows with Some m => m | None => D.mkdm 0 0 [] end.
+Definition colv (v : list float) : dm float := D.column_vector_from_vec v.
+
 Definition vsame (a b : list float) : bool := list_eqb feq a b.
 Definition msame (a b : list (list float)) : bool := list_eqb vsame a b.
-Definition fit_same (a b : option (list float * float)) : bool :=
-  option_eqb (fun u v => vsame (fst u) (fst v) && feq (snd u) (snd v)) a b.
+Definition dsame (a b : dm float) : bool :=
+  Nat.eqb (nrows a) (nrows b) && Nat.eqb (ncols a) (ncols b) && vsame (values a) (values b).
+(* a fitted model: the coefficient matrix must be (length w) x 1 with the entries w *)
+Definition fit_same (a : option (dm float * float)) (b : option (list float * float)) : bool :=
+  match a, b with
+  | None, None => true
+  | Some (wm, ic), Some (w, ic') => dsame wm (colv w) && feq ic ic'
+  | _, _ => false
+  end.
+Definition sol_same (a : option (dm float)) (b : option (list float)) : bool :=
+  match a, b with
+  | None, None => true
+  | Some m, Some v => dsame m (colv v)
+  | _, _ => false
+  end.
 
 Definition corr_stats (X : list (list float)) (mean std : list float) (scaled : list (list float)) : bool :=
-  vsame (col_mean F X) mean && vsame (col_std F X) std && msame (scale F X mean std) scaled.
+  vsame (D.mean F (mk X) true) mean && vsame (D.std F (mk X) true) std &&
+  match D.scale F (mk X) mean std true with
+  | Some Z => dsame Z (mk scaled)
+  | None => false
+  end.
 
 Definition corr_chol (A : list (list float)) (b : list float) (expected : option (list float)) : bool :=
-  option_eqb vsame (chol_solve F A b) expected.
+  sol_same (cholesky_solve_mut F (mk A) (colv b)) expected.
 
 Definition corr_ridge_chol (X : list (list float)) (y : list float) (alpha : float) (normalize : bool)
            (expected : option (list float * float)) : bool :=
-  fit_same (ridge_fit F (chol_solve F) eps64 X y alpha normalize) expected.
+  fit_same (ridge_fit F (cholesky_solve_mut F) eps64 (mk X) y alpha normalize) expected.
 
 (* the solver that replays the implementation's answer `s` for exactly the system (A, rhs) *)
 Definition replay_solver (A : list (list float)) (rhs : list float) (s : option (list float))
-  : list (list float) -> list float -> option (list float) :=
-  fun A' r' => if msame A' A && vsame r' rhs then s else None.
+  : dm float -> dm float -> option (dm float) :=
+  fun A' r' => if dsame A' (mk A) && dsame r' (colv rhs) then option_map colv s else None.
 
 Definition corr_ridge_with (X : list (list float)) (y : list float) (alpha : float) (normalize : bool)
            (A : list (list float)) (rhs : list float) (s : option (list float))
            (expected : option (list float * float)) : bool :=
-  fit_same (ridge_fit F (replay_solver A rhs s) eps64 X y alpha normalize) expected.
+  fit_same (ridge_fit F (replay_solver A rhs s) eps64 (mk X) y alpha normalize) expected.
 
 Definition corr_ols_with (X : list (list float)) (y : list float)
            (A : list (list float)) (s : option (list float))
            (expected : option (list float * float)) : bool :=
-  fit_same (ols_fit F (replay_solver A y s) X y) expected.
+  fit_same (ols_fit F (replay_solver A y s) (mk X) y) expected.
 
 Definition corr_predict (X : list (list float)) (w : list float) (b : float)
            (expected : option (list float)) : bool :=
-  option_eqb vsame (predict F X w b) expected.
+  option_eqb vsame (predict F (mk X) (colv w) b) expected.
 
 (* f32 predictions against the f64 model on the widened data:
    |model_i - impl_i| <= tol * (sum_k |x_ik||w_k| + |b|) *)
 Definition corr_predict_tol (tol : float) (X : list (list float)) (w : list float) (b : float)
            (expected : list float) : bool :=
-  match predict F X w b with
+  match predict F (mk X) (colv w) b with
   | None => false
   | Some pr =>
     Nat.eqb (length pr) (length expected) &&
     forallb (fun i =>
-      let sc := PrimFloat.add (osumn F (ncols X) (fun k => PrimFloat.mul (fabs (mget F X i k)) (fabs (vget F w k)))) (fabs b) in
+      let sc := PrimFloat.add (osumn F (ncols (mk X)) (fun k => PrimFloat.mul (fabs (D.get F (mk X) i k)) (fabs (vget F w k)))) (fabs b) in
       feq_abs tol sc (vget F pr i) (vget F expected i)) (seq 0 (length pr))
   end.
 
 Definition corr_check_ols (X : list (list float)) (y w : list float) (b tol : float) : bool :=
-  check_ols F X y w b tol.
+  check_ols F (mk X) y w b tol.
 Definition corr_check_ridge (X : list (list float)) (y : list float) (alpha : float) (normalize : bool)
            (w : list float) (b tol : float) : bool :=
-  check_ridge F eps64 X y alpha normalize w b tol.
+  check_ridge F eps64 (mk X) y alpha normalize w b tol.
 (* the validator must REJECT a visibly non-stationary point (guards against a vacuous validator) *)
 Definition corr_check_ols_rejects (X : list (list float)) (y w : list float) (b tol : float) : bool :=
-  negb (check_ols F X y w b tol).
+  negb (check_ols F (mk X) y w b tol).
 Definition corr_check_ridge_rejects (X : list (list float)) (y : list float) (alpha : float) (normalize : bool)
            (w : list float) (b tol : float) : bool :=
-  negb (check_ridge F eps64 X y alpha normalize w b tol).
+  negb (check_ridge F eps64 (mk X) y alpha normalize w b tol).
